@@ -1,4 +1,5 @@
 mod common;
+mod c19;
 mod c10;
 mod c13;
 mod c15;
@@ -23,6 +24,7 @@ fn main() {
         "C15" => c15::run(&args),
         "C13" => c13::run(&args),
         "C10" => c10::run(&args),
+        "C19" => c19::run(&args),
         x => {
             eprintln!("unknown property {}", x);
             std::process::exit(2);
